@@ -38,3 +38,9 @@ def run(ctx):
     ctx.run_rule("K4c", r_round.rule_K4_c)
     ctx.run_rule("K4r", r_round.rule_K4_rust, ["pure-full"])
     ctx.run_rule("F8r", r_round.rule_F8_rust, ["pure-full", "asm-full", "portable1"])
+    # the intrinsics flavours (Rust `pure`, C `prefer_intrinsics`) must agree with the others: their per-kernel set-up rules
+    ctx.run_rule("K5r", r_round.rule_K5_rust, ["pure-full"])
+    ctx.run_rule("STr", r_round.rule_ST_rust, ["pure-full"])
+    ctx.run_rule("K5c", r_round.rule_K5_c)
+    ctx.run_rule("F8c", r_round.rule_F8_c)
+    ctx.run_rule("STc", r_round.rule_ST_c)
